@@ -458,6 +458,10 @@ def r_prng_step(ctx, prog):
     else:
         bt = getattr(an, 'bad_threshold', None)
         canonical = (bt is None and cs['pre_hi'] < 2 * P and cs['threshold_first_subtracted'] in (P, P + 1))
+        # ... and the conditional subtraction is the LAST step: nothing may be added to the reduced value before it is stored
+        if canonical and res.hi > P:
+            canonical = False
+            bt = 'the stored value ranges up to %d: something is added after the reduction step' % res.hi
         ctx.instance(R, canonical, st, 'step:canonical',
                      'value before reduction ranges up to %d (must stay below 2P = %d) and P is subtracted for values >= %d '
                      '(must be P or P+1: residues 0 and P cannot occur because P is prime and 1 <= s < P)%s' %
